@@ -43,6 +43,8 @@ import (
 //   c14 par <thr> <client> <n> <nonce> <overlap|plain>   one request to n servers at once
 //        (SendProtobufParallelWithDecoder); overlap: a decoder that makes two replies overlap
 //   c14 all <thr> <client> <n> <path> <hex>   the same request to n servers one after the other (Client.SendToAll)
+//   c14 crowd <n> <hex>       n more clients connect to the C14Echo endpoint, each sends the request, reads its
+//                             reply and stays connected (idle) to the end of the case
 //   c14 allwho <thr> <client> <n> <nonce> <pattern>   Client.SendToAll of a C14Who request (answered with the
 //                             answering server's address) to a roster given by the pattern: u = the next of the
 //                             n servers, d = an unreachable node; observed: whose reply sits at which position
@@ -77,6 +79,8 @@ type c14env struct {
 	ws   map[string]*onet.Client
 	hc   map[string]*http.Client
 	mu   sync.Mutex
+	// connections of the op crowd: open and idle to the end of the case
+	crowd []*websocket.Conn
 }
 
 func c14start(n int) *c14env {
@@ -326,6 +330,79 @@ func (e *c14env) doAllWho(tk []string) string {
 		es = "err"
 	}
 	return fmt.Sprintf("len=%d %s %s", len(reps), strings.Join(cells, " "), es)
+}
+
+// doCrowd lets n more clients connect to the C14Echo endpoint of the first server (raw connections, 32
+// dialing at a time); each sends the request, reads its reply and stays connected, idle, to the end of
+// the case. Observed: how many there are and the reply they all got.
+func (e *c14env) doCrowd(tk []string) string {
+	n, err := strconv.Atoi(tk[2])
+	buf, ok := c14hex(tk[3])
+	if err != nil || !ok || n < 1 || n > 4000 {
+		return "bad-op"
+	}
+	url := strings.Replace(e.base, "http://", "ws://", 1) + "/" + c14ServiceName + "/C14Echo"
+	var mu sync.Mutex
+	var wg sync.WaitGroup
+	first, bad := "", ""
+	sem := make(chan struct{}, 32)
+	for i := 0; i < n; i++ {
+		mu.Lock()
+		stop := bad != ""
+		mu.Unlock()
+		if stop {
+			break // (a broken tree must not cost one time-out per connection)
+		}
+		sem <- struct{}{}
+		wg.Add(1)
+		go func(i int) {
+			defer wg.Done()
+			defer func() { <-sem }()
+			fail := func(s string) {
+				mu.Lock()
+				if bad == "" {
+					bad = fmt.Sprintf("connection %d: %s", i, s)
+				}
+				mu.Unlock()
+			}
+			d := &websocket.Dialer{HandshakeTimeout: 4 * time.Second}
+			conn, _, err := d.Dial(url, nil)
+			if err != nil {
+				fail("dial")
+				return
+			}
+			mu.Lock()
+			e.crowd = append(e.crowd, conn)
+			mu.Unlock()
+			if conn.WriteMessage(websocket.BinaryMessage, buf) != nil {
+				fail("write")
+				return
+			}
+			conn.SetReadDeadline(time.Now().Add(8 * time.Second))
+			_, rep, err := conn.ReadMessage()
+			conn.SetReadDeadline(time.Time{})
+			got := ""
+			if err != nil {
+				got = c14wsErr(err)
+			} else if r, ok := c14decodeReply(rep); ok {
+				got = "ok " + c14showReply(r)
+			} else {
+				got = "undecodable-reply " + h.Hex(rep)
+			}
+			mu.Lock()
+			if first == "" {
+				first = got
+			} else if got != first && bad == "" {
+				bad = fmt.Sprintf("connection %d: %s", i, strings.Replace(got, " ", "_", -1))
+			}
+			mu.Unlock()
+		}(i)
+	}
+	wg.Wait()
+	if bad != "" {
+		return "fail " + bad
+	}
+	return fmt.Sprintf("n=%d %s", n, first)
 }
 
 // doAll sends one request to the first n servers one after the other
@@ -852,6 +929,9 @@ func c14exec(c *h.Ctx, cs *h.Case) {
 		case len(tk) == 4 && tk[0] == "c14" && tk[1] == "direct":
 			flush()
 			cs.Impl[i] = e.doDirect(tk)
+		case len(tk) == 4 && tk[0] == "c14" && tk[1] == "crowd":
+			flush()
+			cs.Impl[i] = e.doCrowd(tk)
 		case len(tk) == 2 && tk[0] == "c14" && tk[1] == "barrier":
 			flush()
 			cs.Impl[i] = "ok"
@@ -1087,6 +1167,19 @@ func c14oracle(cs *h.Case) {
 				if !strings.HasPrefix(obs, "err ") {
 					cs.Fail("c14:error-not-reported:direct", fmt.Sprintf("request %d %q must be answered with an error, got %q", i, op, obs))
 				}
+			}
+			continue
+		}
+		if len(tk) == 4 && tk[1] == "crowd" {
+			// n more clients, connected at the same time: each one is owed what one client is owed
+			n, _ := strconv.Atoi(tk[2])
+			classes["crowd:"+strings.Fields(obs + " -")[0]] = true
+			kind, want, called := c14owed([]string{"c14", "ws", "tcrowd", "rcrowd", "C14Echo", tk[3]}, &kept)
+			if called {
+				wantCalls += int64(n)
+			}
+			if kind == "reply" && obs != fmt.Sprintf("n=%d ok %s", n, want) {
+				cs.Fail("c14:wrong-reply:ws", fmt.Sprintf("request %d %q: %d clients connected at the same time, each owed %q: %s", i, op, n, want, obs))
 			}
 			continue
 		}
@@ -1607,6 +1700,21 @@ func c14genCases(c *h.Ctx, yield func(*h.Case)) {
 		cstate(cs, "x1", "u1", "p1", "k1", "o1")
 		emit(cs)
 	}
+	for _, n := range []int{300, 1100} {
+		// many clients connected at the same time, idle between their requests (seed C14r6-B: a bound
+		// of 128 on the connections of one service): every one is served, and so are the kept and
+		// single-use clients that come afterwards and the canaries of the case's end
+		cs := &h.Case{Class: "corpus:many-connections"}
+		enc := func(a int64, s string) string {
+			b, _ := protobuf.Encode(&C14Echo{A: a, S: s, B: []byte{6}})
+			return h.Hex(b)
+		}
+		cs.Ops = append(cs.Ops, "c14 ws t1 k1 C14Echo "+enc(1, "before"), fmt.Sprintf("c14 crowd %d %s", n, enc(int64(n), "crowd")),
+			"c14 ws t1 k1 C14Echo "+enc(2, "kept"), "c14 ws t2 o1 C14Swap "+enc(3, "single"), "c14 ws t2 k2 C14Both "+enc(4, "another"),
+			"c14 rest t2 k1 POST json C14Post - {}", fmt.Sprintf("c14 crowd 40 %s", enc(5, "more")), "c14 ws t1 o2 C14Echo "+enc(6, "after"))
+		cstate(cs, "k1", "o1")
+		emit(cs)
+	}
 	{
 		// QuitError with a refusing node next to answering ones, many times over (the error and the
 		// accepted reply must come at the same moment for the double close of `done`)
@@ -1869,6 +1977,19 @@ func c14genCases(c *h.Ctx, yield func(*h.Case)) {
 				buf, kind := g.wsBuf(-1)
 				c.Count("direct:" + kind)
 				cs.Ops = append(cs.Ops, fmt.Sprintf("c14 direct %s %s", g.wsPath(), buf))
+			}
+			emit(cs)
+		}
+		if it%40 == 5 {
+			// many connections open at the same time, then ordinary traffic
+			cs = &h.Case{Class: "many-connections"}
+			nn := []int{130, 150, 200, 257, 400, 520}[r.Intn(6)]
+			c.Count(fmt.Sprintf("crowd<=%d", (nn/200+1)*200))
+			buf, _ := g.wsBuf(0)
+			cs.Ops = append(cs.Ops, fmt.Sprintf("c14 crowd %d %s", nn, buf))
+			for i, m := 0, 2+r.Intn(4); i < m; i++ {
+				b2, _ := g.wsBuf(0)
+				cs.Ops = append(cs.Ops, fmt.Sprintf("c14 ws t%d %s %s %s", r.Intn(2), []string{"k0", "o0", "k1", "o1"}[r.Intn(4)], []string{"C14Echo", "C14Swap"}[r.Intn(2)], b2))
 			}
 			emit(cs)
 		}
